@@ -21,7 +21,7 @@ RULE = ("Cases: tree x subset and values of {announce (1-3 urls), web-seed, http
         "structure, align -> piece-aligned files. Non-trivial: >= 2 options besides out, or a list-valued flag directly before the content path. "
         "Distinct = distinct canonical case JSON.")
 ASSUMPTIONS = [
-    "values avoid what an ini file cannot carry literally (%, newlines, edge whitespace, leading #/;); non-ASCII comment/source values are judged in UTF-8 locales only (the ini file is read in the locale's encoding) and a leading '-' on the command line",
+    "values avoid what an ini file cannot carry literally (newlines, edge whitespace, leading #/;); non-ASCII comment/source values are judged in UTF-8 locales only (the ini file is read in the locale's encoding) and a leading '-' on the command line",
     "`out` is always supplied (the default location is documented differently in manual and code and is not judged)",
     "vf/ref/bencode.py strict decoder",
 ]
@@ -30,13 +30,16 @@ BUDGET = {
     "quick": {"examples": 400, "workers": 8, "time_cap": 70},
     "thorough": {"examples": 10000, "workers": 14, "time_cap": 900},
 }
-URLS = ["http://tracker.example/announce", "udp://t2.example:6969", "https://a.b/c?d=e&f=g", "http://h:1/a;b", "u", "wss://t/#frag"]
+URLS = ["http://tracker.example/announce", "udp://t2.example:6969", "https://a.b/c?d=e&f=g", "http://h:1/a;b", "u", "wss://t/#frag",
+        # percent-encoded bytes: passkeys and paths carry them all the time
+        "http://t.example/announce?passkey=a%2Fb", "http://w.example/my%20files/"]
 
 
 def value_text():
     # comment / source are free text: the words true / false / yes / on / 1 are text there too (`--comment true` records "true")
     return st.one_of(st.sampled_from(["c", "a comment", "x=y&z", "MyTracker", "with : colon", "0", "k = v", "Season 2 #3 ; remastered", "a ;b", "x #y",
-                                      "true", "false", "True", "FALSE", "yes", "on", "1", "none", "caf\u00e9 \u2615", "\u65e5\u672c\u8a9e"]),
+                                      "true", "false", "True", "FALSE", "yes", "on", "1", "none", "caf\u00e9 \u2615", "\u65e5\u672c\u8a9e",
+                                      "100% legal", "%(source)s"]),
                      st.text(alphabet="abc XYZ09_=&+:;[]", min_size=1, max_size=12)).filter(
         lambda t: t.strip() == t and t and t[0] not in "#;-")
 
